@@ -164,12 +164,10 @@ void AutomationMgr::setSlotSub(int slot_id, int par, float value)
 
     char msg[256] = {0};
     if(type == 'i' || type == 'c') {
-        //map and clamp in double from the exact bounds: a float cannot hold
-        //every int, nor resolve a narrow range far from zero
-        const double center = (au.param_min+au.param_max)
-                              *(0.5 + au.map.offset/100.0);
-        const double range  = (au.param_max-au.param_min)*au.map.gain/100.0;
-        double v = center - range/2.0 + value*range;
+        //the control points decide (updateMapping, simpleSlope), as for
+        //floats; the clamp is against the exact bounds: a float cannot hold
+        //every int
+        double v = value*((double)b-a) + a;
         if(v > au.param_max)
             v = au.param_max;
         else if(v < au.param_min)
@@ -178,7 +176,14 @@ void AutomationMgr::setSlotSub(int slot_id, int par, float value)
         if(au.map.control_scale == 1)
             v = exp(v);
 
-        rtosc_message(msg, 256, path, type == 'i' ? "i" : "c", (int)round(v));
+        //(a bound can lie beyond what an 'i' argument carries)
+        v = round(v);
+        if(v > 2147483647.0)
+            v = 2147483647.0;
+        else if(v < -2147483648.0)
+            v = -2147483648.0;
+
+        rtosc_message(msg, 256, path, type == 'i' ? "i" : "c", (int)v);
     } else if(type == 'f') {
         float v = value*(b-a) + a;
         if(v > mx)
